@@ -51,7 +51,8 @@ ASSUMPTIONS = [
 REQUIRED = ["pairs", "rotations", "translations", "scalings", "renumberings", "library_motions",
             "length_compared", "multisets_compared", "per_node_compared", "sholl_fixed_radii_compared",
             "sholl_steps_compared", "angles_compared", "orders_compared", "volume_compared",
-            "small_extent_scalings", "file_sourced_trees", "tap_sholl_get"]
+            "small_extent_scalings", "file_sourced_trees", "tap_sholl_get",
+            "twins_with_float64_columns", "remeasured_after_all_queries"]
 FLOOR = {"quick": 350, "thorough": 7000}
 SHARDS = {"quick": 8, "thorough": 16}
 TIMEOUT = {"quick": 400, "thorough": 3000}
@@ -105,7 +106,17 @@ def library_twin(tree, case):
 
     rng = np.random.default_rng(case["mseed"])
     t = tree
-    if case["rotate"]:
+    if case["rotate"] and case["mseed"] % 3 == 0:
+        # a rigid motion given as the caller's own float64 matrix (numpy's default dtype)
+        from swcgeom.transforms import AffineTransform
+
+        q, _ = np.linalg.qr(rng.normal(size=(3, 3)))
+        if np.linalg.det(q) < 0:
+            q[:, 0] = -q[:, 0]
+        tm = np.eye(4)
+        tm[:3, :3] = q
+        t = AffineTransform(tm, center="origin")(t)
+    elif case["rotate"]:
         for cls in (RotateX, RotateY, RotateZ):
             t = cls(float(rng.uniform(-np.pi, np.pi)),
                     center=str(rng.choice(["root", "origin"])))(t)
@@ -181,6 +192,9 @@ def measure(tree, ref: Ref, radii, steps, nodes, want_volume, soma_ok):
     if want_volume:
         levels = [1, 2, 3] + ([5] if not ref.furcations else [])
         out["volume"] = {a: float(get_volume(tree, accuracy=a)) for a in levels}
+    # measuring is not a motion either: the first quantities asked again, last, of the same object
+    out["length_again"] = (float(tree.length()), float(extract_feature(tree).get("length")[0]))
+    out["branch_length_again"] = np.sort(fe.get("branch_length")).astype(np.float64)
     return out
 
 
@@ -212,6 +226,14 @@ def compare(ctx, case, A, B, refA: Ref, refB: Ref, new_of_old, s, radii_margin):
             raise Mismatch(mech or name, f"{name}: {a.ravel()[i]!r} (x{factor:g} applied) before, "
                                          f"{b.ravel()[i]!r} after the motion (tolerance {tol:.3g})")
 
+    for nm, M in (("original", A), ("moved", B)):
+        ctx.count("remeasured_after_all_queries")
+        if M["length_again"] != (M["length"], M["length_fe"]) or \
+                not np.array_equal(M["branch_length_again"], M["branch_length"]):
+            raise Mismatch("measuring-changes-the-neuron",
+                           f"the {nm} tree's length was {M['length']!r} when first asked and "
+                           f"{M['length_again'][0]!r} after the other morphometrics had been "
+                           f"computed on the same object")
     close("Tree.length", A["length"], B["length"], n)
     close("length (front end)", A["length_fe"], B["length_fe"], n)
     ctx.count("length_compared")
@@ -358,6 +380,11 @@ def _exec(ctx, case):
     else:
         spec2, new_of_old = twin_spec(spec, case)
         tree2 = G.build(dict(spec2), with_tag=False, source=src)
+        if case["mseed"] % 4 == 1:
+            # the same values held in double precision (a caller replacing the columns wholesale)
+            for k_ in "xyz":
+                tree2.ndata[k_] = tree2.ndata[k_].astype(np.float64)
+            ctx.count("twins_with_float64_columns")
     refA = Ref(spec["pid"], np.stack([spec["x"], spec["y"], spec["z"]], axis=1))
     refB = Ref(spec2["pid"], np.stack([spec2["x"], spec2["y"], spec2["z"]], axis=1))
     ctx.count("pairs")
